@@ -65,7 +65,10 @@ def parse(text):
             ma = ATTR.match(ln)
             if ma:
                 d = len(ma.group(1))
-                owner = next((n for n in reversed(stack) if n["d"] == d - 1), None)
+                # layout rule: a line at depth d closes every open clafer at depth >= d
+                while stack and stack[-1]["d"] >= d:
+                    stack.pop()
+                owner = stack[-1] if stack and stack[-1]["d"] == d - 1 else None
                 if owner is None:
                     raise ClaferError("attribute line without owner " + repr(ln))
                 owner["attrs"].append((ma.group(2), ma.group(3)))
@@ -261,7 +264,8 @@ def structure(text):
     root, nodes, attrs_decl, constraints = parse(text)
 
     def feat(n):
-        f = {"name": unq(n["name"]), "rels": []}
+        f = {"name": unq(n["name"]), "rels": [], "attr_names": sorted(unq(a) for a, _ in n["attrs"]),
+             "attributed": n["attributed"]}
         kids = n["kids"]
         if not kids:
             return f
